@@ -1,6 +1,7 @@
 import CTV.Lemmas.TlsCodec
 import CTV.Lemmas.TlsTag
 import CTV.Lemmas.TlsSupported
+import CTV.Gen.CtTypes
 /-!
 # C09 — the TLS presentation codec is a bijection on every supported type shape
 
@@ -247,12 +248,25 @@ decimal literals in the tags.  (Whether the selector precedes its variants does 
 encoder refuses the value otherwise.) -/
 
 /-- Every Go type built from the documented shapes resolves to a well-formed codec type … -/
-theorem supported_wf (g : GoTy) (h : Sup g) (info : Option FieldInfo) : (resolve false g info).wf = true := h.wf info
+theorem supported_wf (g : GoTy) (h : Sup g) (info : Option FieldInfo) : (resolve false g info).wf = true := h.wf_top info
 
 /-- … hence decoding the encoding of any of its values returns the value with exactly the suffix left over. -/
 theorem dec_enc_supported (g : GoTy) (h : Sup g) (v : Val) (bs r : Bytes) (he : enc (resolve false g none) v = .ok bs) :
     dec (resolve false g none) (bs ++ r) = .ok (v, r) :=
-  Tls.dec_enc _ v bs r (h.wf none) he
+  Tls.dec_enc _ v bs r (h.wf_top none) he
+
+/-- Top-level values with parameters (`MarshalWithParams(v, "maxval:255")` …): an enum or a byte string / vector with a
+documented size clause as parameter string is well-formed too. -/
+theorem supported_top_enum (g : GoTy) (hk : g.enumKind = true) (params : List Char) (hp : SizeTag params) :
+    ∃ T, resolveTop g params = .ok T ∧ T.wf = true := by
+  obtain ⟨i, hi, _, hw⟩ := hp.parse ""
+  exact ⟨.enum i.toInfo, by simp [resolveTop, hi, resolve_enumKind g hk], by simpa [Ty.wf] using hw⟩
+
+theorem supported_top_bytes (g e : GoTy) (hc : g.core = .slice e) (he : e.isU8 = true) (params : List Char) (hp : SizeTag params) :
+    ∃ T, resolveTop g params = .ok T ∧ T.wf = true := by
+  obtain ⟨i, hi, _, hw⟩ := hp.parse ""
+  refine ⟨.bytes i.toInfo, ?_, by simpa [Ty.wf] using hw⟩
+  simp [resolveTop, hi, resolve_core g (by simp [hc, GoTy.composite]), hc, resolve, he]
 
 /-- the documented example `VariantItem` is in the table -/
 def variantItem : GoTy := .struct (.cons "Sel" ("maxval:".toList ++ "2".toList) (.named .u64)
@@ -260,9 +274,39 @@ def variantItem : GoTy := .struct (.cons "Sel" ("maxval:".toList ++ "2".toList) 
   (.cons "Data32" ("selector:".toList ++ "Sel".toList ++ ',' :: ("val:".toList ++ "2".toList)) (.ptr .u32) .nil)))
 
 example : Sup variantItem :=
-  .struct _ (.enum "Sel" _ _ _ rfl (.maxval _ 2 (by decide +kernel))
+  .struct _ _ rfl (.enum "Sel" _ _ _ rfl (.maxval _ 2 (by decide +kernel))
     (.variant "Data16" "Sel".toList "1".toList 1 .u16 _ (by decide) (by decide) (by decide +kernel) .u16
     (.variant "Data32" "Sel".toList "2".toList 2 .u32 _ (by decide) (by decide) (by decide +kernel) .u32 .nil)))
+
+/-- The repository's own wire structs are in the table, defined slice / array / enum types included: the regenerated
+`ct.TreeHeadSignature` (enums declared from `tls.Enum`, `uint64`, `ct.SHA256Hash = [32]byte`) … -/
+example : Sup Gen.ct_TreeHeadSignature :=
+  have mv : SizeTag "maxval:255".toList := .ofEq (by decide) (.maxval "255".toList 255 (by decide +kernel))
+  .struct _ _ rfl
+    (.enum "Version" _ _ _ (by decide) mv
+    (.enum "SignatureType" _ _ _ (by decide) mv
+    (.plain "Timestamp" _ _ _ (by decide) .u64 (Or.inl (by decide))
+    (.plain "TreeSize" _ _ _ (by decide) .u64 (Or.inl (by decide))
+    (.plain "SHA256RootHash" _ _ _ (by decide) (.arr _ 32 .u8 rfl rfl) (Or.inl (by decide)) .nil)))))
+
+/-- … and `ct.SignedCertificateTimestamp` (`ct.LogID` struct, `ct.CTExtensions = []byte`, `ct.DigitallySigned`, a defined
+type of the defined struct `tls.DigitallySigned`). -/
+example : Sup Gen.ct_SignedCertificateTimestamp :=
+  have mv : SizeTag "maxval:255".toList := .ofEq (by decide) (.maxval "255".toList 255 (by decide +kernel))
+  have ext : SizeTag "minlen:0,maxlen:65535".toList :=
+    .ofEq (by decide) (.minmax "0".toList "65535".toList 0 65535 (by decide +kernel) (by decide +kernel) (by decide))
+  .struct _ _ rfl
+    (.enum "SCTVersion" _ _ _ (by decide) mv
+    (.plain "LogID" _ _ _ (by decide)
+      (.struct _ _ rfl (.plain "KeyID" _ _ _ (by decide) (.arr _ 32 .u8 rfl rfl) (Or.inl (by decide)) .nil)) (Or.inl (by decide))
+    (.plain "Timestamp" _ _ _ (by decide) .u64 (Or.inl (by decide))
+    (.bytes "Extensions" _ _ .u8 _ rfl rfl ext
+    (.plain "Signature" _ _ _ (by decide)
+      (.struct _ _ rfl
+        (.plain "Algorithm" _ _ _ (by decide)
+          (.struct _ _ rfl (.enum "Hash" _ _ _ (by decide) mv (.enum "Signature" _ _ _ (by decide) mv .nil))) (Or.inl (by decide))
+        (.bytes "Signature" _ _ .u8 _ rfl rfl ext .nil)))
+      (Or.inl (by decide)) .nil)))))
 
 example : variantItem = .struct (.cons "Sel" "maxval:2".toList (.named .u64)
   (.cons "Data16" "selector:Sel,val:1".toList (.ptr .u16) (.cons "Data32" "selector:Sel,val:2".toList (.ptr .u32) .nil))) := by
